@@ -2,6 +2,7 @@ import AcryoVerif.Lemmas.Corr
 import AcryoVerif.Gen.Score
 import AcryoVerif.Gen.Align
 import AcryoVerif.Props.C05
+import AcryoVerif.Gen.Sched
 
 /-!
 # C07 — Correlation scores mean what they say
@@ -165,5 +166,13 @@ theorem pcc_wrap_lag (l N i : Int) (hl : 0 ≤ l) (hN : 1 ≤ N)
     · have : (i + L / 2) % L = i + L / 2 - L := by
         rw [← Int.sub_emod_right]; exact Int.emod_eq_of_lt (by omega) (by omega)
       right; omega
+
+
+/-- Scores are functions of the sub-volume, the template and the orientation alone: no method of the
+alignment or tilt models (outside `__init__` and the template cache) stores into `self`, so a score
+cannot depend on which molecules were scored before with the same model. -/
+theorem model_is_immutable :
+    Gen.modelMethodsDoNotStoreBase = true ∧ Gen.modelMethodsDoNotStoreConcrete = true
+    ∧ Gen.tiltModelsDoNotStore = true := by decide
 
 end C07
